@@ -350,7 +350,7 @@ m = {
         "baseline_off_cmd": ("cd /repo && (cargo nextest run --workspace --no-fail-fast --test-threads 8 --offline || "
                              "cargo test --workspace --no-fail-fast --offline)"),
         "source_commits": hook_commits,
-        "add_only": True,
+        "add_only": False,
     },
     "engines": [{
         "name": "lean4+correspondence", "path": "/verif/check", "serves_properties": sorted(CLAIMS),
